@@ -48,7 +48,6 @@ NPZ_OPTIONAL = ("AA", "BB", "CC", "SS", "OO", "GG", "FF", "SH", "SR", "SA", "SHA
 # ------------------------------------------------------------------------------------------------
 # point-group generators compatible with the lattice families of vlib.wbsys (Cartesian frame before rotation)
 
-_S3 = np.sqrt(3.0)
 _CUBIC = [("rot", 4, (0, 0, 1)), ("rot", 4, (1, 0, 0)), ("rot", 3, (1, 1, 1)), ("rot", 2, (1, 1, 0)), ("inv",),
           ("mir", (1, 0, 0)), ("mir", (0, 0, 1)), ("rot", 2, (0, 1, 0))]
 GENERATORS = {
@@ -516,7 +515,7 @@ def check_hr(case):
 
 
 SUBS = [
-    Sub("npz", _case_st("npz"), check_npz, quick=400, thorough=16000),
-    Sub("tb", _case_st("tb"), check_tb, quick=400, thorough=16000),
-    Sub("hr", _case_st("hr"), check_hr, quick=400, thorough=16000),
+    Sub("npz", _case_st("npz"), check_npz, quick=400, thorough=8000),
+    Sub("tb", _case_st("tb"), check_tb, quick=400, thorough=12000),
+    Sub("hr", _case_st("hr"), check_hr, quick=400, thorough=12000),
 ]
